@@ -8,6 +8,9 @@ package main
 //	os.CreateTemp(dir, pattern)      -> verifOSCreateTemp(dir, pattern string) (*os.File, error)
 //	os.Create(name)                  -> verifOSCreate(name string) (*os.File, error)
 //	os.Open(name)                    -> verifOSOpen(name string) (*os.File, error)
+//	os.OpenFile(name, flag, perm)    -> verifOSOpenFile(name string, flag int, perm os.FileMode) (*os.File, error)
+//	                                    (offset-aware: no O_TRUNC keeps the old bytes, writes overwrite from offset 0)
+//	os.RemoveAll(path)               -> verifOSRemoveAll(path string) error
 //	(*os.File).Write(p)              -> verifOSFileWrite(f *os.File, p []byte) (int, error)
 //	(*os.File).Read(p)               -> verifOSFileRead(f *os.File, p []byte) (int, error)
 //	(*os.File).ReadFrom(r)           -> verifOSFileReadFrom(f *os.File, r io.Reader) (int64, error)
@@ -39,6 +42,8 @@ func init() {
 	reg("os.CreateTemp", delegateToHarness("verifOSCreateTemp"))
 	reg("os.Create", delegateToHarness("verifOSCreate"))
 	reg("os.Open", delegateToHarness("verifOSOpen"))
+	reg("os.OpenFile", delegateToHarness("verifOSOpenFile"))
+	reg("os.RemoveAll", delegateToHarness("verifOSRemoveAll"))
 	reg("(*os.File).Write", delegateToHarness("verifOSFileWrite"))
 	reg("(*os.File).Read", delegateToHarness("verifOSFileRead"))
 	reg("(*os.File).ReadFrom", delegateToHarness("verifOSFileReadFrom"))
